@@ -110,7 +110,9 @@ var fullCtx = func() *hcl.EvalContext {
 	}
 }()
 
-var evalCtxs = []*hcl.EvalContext{nil, emptyCtx, fullCtx}
+// (collCtx: typed lists / sets / maps of lists incl. empty ones, unknown and null collections,
+// the collection functions - splat_test.go)
+var evalCtxs = []*hcl.EvalContext{nil, emptyCtx, fullCtx, collCtx}
 
 // ---------------------------------------------------------------------------------
 // decoding targets
@@ -777,7 +779,7 @@ func evalExpr(e hcl.Expression) {
 }
 
 func decodeBody(body hcl.Body, spec hcldec.Spec) {
-	for _, ctx := range []*hcl.EvalContext{nil, fullCtx} {
+	for _, ctx := range []*hcl.EvalContext{nil, fullCtx, collCtx} {
 		hcldec.Decode(body, spec, ctx)
 		hcldec.Decode(body, fixedSpec, ctx)
 		var t gTarget
@@ -927,6 +929,7 @@ func runEntry(entry string, src []byte, o *obs) *core.Violation {
 			o.evaluated = true
 			tr.TraverseAbs(emptyCtx)
 			tr.TraverseAbs(fullCtx)
+			tr.TraverseAbs(collCtx)
 			tr.RootName()
 		}
 		return nil
